@@ -259,7 +259,8 @@ pub fn find(params: &[Value]) -> NativeResult {
         [Value::String(haystack), Value::String(needle)] => Ok(haystack
             .find(needle)
             .map_or(Value::Number(-1.0 + STRING_OFFSET), |index| {
-                Value::Number(f64_from_usize(index) + STRING_OFFSET)
+                let char_index = haystack[..index].chars().count(); // byte offset to character position
+                Value::Number(f64_from_usize(char_index) + STRING_OFFSET)
             })),
         [Value::Array(haystack), needle] => Ok(haystack
             .iter()
